@@ -97,6 +97,10 @@ type Replay struct {
 	Minimised   bool      `json:"minimised"`
 	ShrinkSteps int       `json:"shrink_steps"`
 	Scenario    *Scenario `json:"scenario"`
+	// Prelude: worlds the same process executed before this one. Only present when the violation
+	// does not reproduce from the scenario alone - i.e. when independent worlds influence one
+	// another through package-level state of the library (itself a C04 isolation violation).
+	Prelude []*Scenario `json:"prelude,omitempty"`
 }
 
 func WriteReplay(path string, r *Replay) error {
